@@ -95,7 +95,7 @@ Section Invert.
     rewrite E1. cbn [is_numerical]. rewrite <- E1, Ha1.
     change (fout R (twinR w)) with (fout R w).
     rewrite (c2q_quantities_gen R Rmult Rdiv skyconv deg sec (fout R w) (conv_listR ws (funit R (fout R w)) us') us' Hok ltac:(congruence) ltac:(congruence) Hne').
-    cbn [ubind]. cbn [twin bwd uses_quantity free_transform].
+    cbn [ubind]. unfold twin. destruct Hwf as [Hf' [Hb' _]]. rewrite (free_transform_on R Rmult Rdiv (bwd R w) _ _ Hb'). cbn [bwd uses_quantity].
     rewrite (get_values_attach R Rmult Rdiv (conv_listR ws (funit R (fout R w)) us') us' _ Hc1 ltac:(congruence)). cbn [ubind].
     rewrite conv_list_roundtrip; auto; try congruence.
     destruct ws as [|x ws]; [congruence|]. cbn [map is_numerical].
